@@ -86,6 +86,7 @@ type Field struct {
 	MapVal  Kind
 	MapMsg  string // message type name of a message-valued map
 	MsgFile string // Base of the imported file that declares Msg / MapMsg ("" = this file)
+	Default string // proto2 [default = ...] in descriptor syntax ("" = none)
 }
 
 type Message struct {
@@ -217,6 +218,9 @@ func (f *File) messageProto(m *Message) *descriptorpb.DescriptorProto {
 			fp.TypeName = typeName("E")
 		case KMessage:
 			fp.TypeName = typeNameIn(fd.MsgFile, fd.Msg)
+		}
+		if fd.Default != "" {
+			fp.DefaultValue = proto.String(fd.Default)
 		}
 		switch fd.Card {
 		case Required:
@@ -435,6 +439,20 @@ func Matrix() []*File {
 					{Name: "os", Num: 2, Kind: KMessage, Card: RepUnpacked, Msg: "Response.Options"}},
 					Nested: []*Message{{Name: "Options", Fields: []Field{{Name: "token", Num: 1, Kind: KString, Card: Required}, {Name: "n", Num: 2, Kind: KInt32, Card: Optional}}}}})
 			files = append(files, sn)
+			// required (and optional) fields that declare a default value: a default is what a getter returns for an
+			// absent field, it does not make the field present
+			files = append(files, &File{Base: "p2reqdef", Proto2: true, Messages: []*Message{
+				{Name: "Def", Fields: []Field{
+					{Name: "n", Num: 1, Kind: KInt32, Card: Required, Default: "7"},
+					{Name: "s", Num: 2, Kind: KString, Card: Required, Default: "dflt"},
+					{Name: "o", Num: 3, Kind: KBool, Card: Optional, Default: "true"},
+					{Name: "d", Num: 4, Kind: KDouble, Card: Optional, Default: "1.5"}}},
+				{Name: "AllDef", Fields: []Field{{Name: "u", Num: 1, Kind: KUInt64, Card: Required, Default: "9"}}},
+				{Name: "DefHolder", Fields: []Field{
+					{Name: "one", Num: 1, Kind: KMessage, Card: Optional, Msg: "Def"},
+					{Name: "many", Num: 2, Kind: KMessage, Card: RepUnpacked, Msg: "AllDef"},
+					{Name: "by", Num: 3, Kind: KMessage, Card: Map, MapKey: KInt32, MapVal: KMessage, MapMsg: "AllDef"},
+					{Name: "x", Num: 4, Kind: KInt64, Card: Optional}}}}})
 
 		}
 		if p2 {
@@ -722,6 +740,17 @@ func Extra() []*File {
 	out = append(out, &File{Base: "xsizefield2", ParamV1: "specialname=Size,specialname=Reset", Messages: []*Message{
 		{Name: "Sized", Fields: []Field{{Name: "size", Num: 1, Kind: KInt32, Card: Implicit}, {Name: "name", Num: 2, Kind: KString, Card: Implicit}}},
 	}})
+	// a NESTED message needs a foreign package, its enclosing message does not (per-message files: the import
+	// belongs to the nested message's file only)
+	out = append(out, &File{Base: "xnestimport", Imports: []*File{dep}, Messages: []*Message{
+		{Name: "Outer", Fields: []Field{{Name: "id", Num: 1, Kind: KInt64, Card: Implicit}, {Name: "in", Num: 2, Kind: KMessage, Card: Implicit, Msg: "Outer.Inner"}},
+			Nested: []*Message{{Name: "Inner", Fields: []Field{{Name: "meta", Num: 1, Kind: KMessage, Card: Implicit, Msg: "Meta", MsgFile: "xdep"}}}}},
+		{Name: "Plain", Fields: []Field{{Name: "a", Num: 1, Kind: KInt32, Card: Implicit}}}}})
+	// the ONLY reference to the foreign package is the value type of a map
+	out = append(out, &File{Base: "xmapimport", Imports: []*File{dep}, Messages: []*Message{
+		{Name: "Dir", Fields: []Field{
+			{Name: "by", Num: 1, Kind: KMessage, Card: Map, MapKey: KString, MapVal: KMessage, MapMsg: "Meta", MsgFile: "xdep"},
+			{Name: "id", Num: 2, Kind: KInt64, Card: Implicit}}}}})
 	out = append(out, &File{Base: "ximport", Imports: []*File{dep}, Messages: []*Message{
 		{Name: "User", Oneofs: []string{"pick"}, Fields: []Field{
 			{Name: "meta", Num: 1, Kind: KMessage, Card: Implicit, Msg: "Meta", MsgFile: "xdep"},
